@@ -628,6 +628,13 @@ attrsLoop:
 	}
 	// cleanAttrs now contains the attributes that are permitted
 
+	// the HTML parser builds an img element from an image start tag: what
+	// follows (URL attributes, the src rewriter, crossorigin) treats image as
+	// the img it becomes
+	if elementName == "image" {
+		elementName = "img"
+	}
+
 	if linkable(elementName) {
 		if p.requireParseableURLs {
 			// Ensure URLs are parseable:
